@@ -13,7 +13,8 @@ NAMES = [[b"local"], [b"foo", b"local"], [b"bar", b"foo", b"local"], [b"foobar",
          [b"office", b"local"], [b"\x03foo", b"local"], [b"a", b"_my", b"local"], [b"\xff\xfe", b"local"], [b"FOO", b"local"],
          # a label holding a dot (DNS-SD instance names do) against the name with the dot as a label separator
          [b"printer.office", b"local"], [b"office", b"printer", b"local"], [b"printer", b"local"],
-         [b"host", b"local"], [b"a", b"host", b"local"], [b"abcdefghijklmnopq", b"host", b"local"], [b"_x", b"local"]]
+         [b"host", b"local"], [b"a", b"host", b"local"], [b"abcdefghijklmnopq", b"host", b"local"], [b"_x", b"local"],
+         [b"_services", b"_dns-sd", b"_udp", b"local"], [b"_services", b"_dns-sd", b"_udp"], [b"inst", b"_ipp", b"_tcp", b"local"], []]
 INFO = {}
 
 
@@ -35,6 +36,9 @@ def pool(rng):
     # an SRV whose target (host.local) owns no record, while two names below it do
     out.append(rr([b"_x", b"local"], ("T", "SRV", [("I", 0), ("I", 0), ("I", 9), ("N", [b"host", b"local"])])))
     out[:] = [r for r in out if r["name"] != [b"host", b"local"]]
+    # an instance three labels below the domain and an SRV owned by the root name
+    out.append(rr([b"inst", b"_ipp", b"_tcp", b"local"], ("T", "SRV", [("I", 0), ("I", 0), ("I", 631), ("N", NAMES[1])])))
+    out.append(rr([], ("T", "SRV", [("I", 0), ("I", 0), ("I", 1), ("N", NAMES[1])])))
     # record types above 255 next to a single address family
     out.append(rr(NAMES[0], ("T", "CAA", [("I", 0), ("B", b"issue"), ("B", b"ca.example")])))
     out.append(rr(NAMES[9], ("U", 65280, b"\x01")))
@@ -93,6 +97,16 @@ def cases(rng, tier):
         c = "STORE " + ops_text(ops)
         INFO[c] = ops
         out.append(c)
+    # directed: DNS-SD service-type enumeration questions against SRV records at several depths (nothing is registered
+    # under those names, so nothing may be answered)
+    srvs = [r for r in P if r["rdata"][0] == "T" and r["rdata"][1] == "SRV"]
+    ops = [("AA", r) for r in srvs]
+    for qn in ([b"_services", b"_dns-sd", b"_udp", b"local"], [b"_services", b"_dns-sd", b"_udp"], [b"_SERVICES", b"_DNS-SD", b"_UDP", b"local"]):
+        for qt in (12, 255, 33, 252):
+            ops.append(("R", query_pkt(9, [{"name": qn, "qtype": qt, "qclass": 1, "uni": False}])))
+    c = "STORE " + ops_text(ops)
+    INFO[c] = ops
+    out.append(c)
     # random op sequences with removes, clears, cached records and two-question queries
     for _ in range(800 if tier == "quick" else 8000):
         ops = []
